@@ -173,17 +173,28 @@ def Data.init (scored : List Input) (cfg : Cfg) : Except String DataS := do
 def DataS.cutFor (D : DataS) (i : Nat) (a : Arr3) : Arr3 :=
   cut a (D.timesI.getD i []) (D.leadsI.getD i []) (D.locsI.getD i [])
 
+/-- index of the input whose observation array input `i` uses: itself if it stores observations,
+otherwise the first input that does (the code shares that input's array object) -/
+def DataS.obsOwner (D : DataS) (i : Nat) : Nat :=
+  if ((D.inputs.getD i default).field? "obs").isSome then i
+  else ((List.range D.inputs.length).find? fun j => ((D.inputs.getD j default).field? "obs").isSome).getD i
+
+def DataS.ownerOf (D : DataS) (name : String) (i : Nat) : Nat :=
+  if name == "obs" then D.obsOwner i else i
+
 /-- per input (incl. climatology): the field cut to the common indices, before propagation.
 Observations: inputs that store none borrow the array of the first input that does. -/
 def DataS.loadAll (D : DataS) (name : String) : Except String (List Arr3) :=
-  let own : List (Option Arr3) :=
-    (List.range D.inputs.length).map fun i =>
-      ((D.inputs.getD i default).field? name).map (D.cutFor i)
+  let has := fun i => ((D.inputs.getD i default).field? name).isSome
+  let idx := List.range D.inputs.length
   if name == "obs" then
-    match own.findSome? id with
-    | none => .error "No files have observations"
-    | some firstObs => .ok (own.map fun o => o.getD firstObs)
-  else if own.all Option.isSome then .ok (own.map fun o => o.getD [])
+    if idx.any has then
+      .ok (idx.map fun i =>
+        let o := D.obsOwner i
+        D.cutFor o (((D.inputs.getD o default).field? "obs").getD []))
+    else .error "No files have observations"
+  else if idx.all has then
+    .ok (idx.map fun i => D.cutFor i (((D.inputs.getD i default).field? name).getD []))
   else .error "does not contain"
 
 /-- a usable value: neither NaN nor ±inf -/
@@ -215,7 +226,7 @@ inductive Sel where
   | times (idx : List Nat)      -- time-derived axes: the init times falling in one bucket
   | leads (idx : List Nat)      -- lead-time-derived axes
   | loc (i : Nat)
-  deriving Repr, Inhabited
+  deriving Repr, Inhabited, DecidableEq
 
 def applySel (a : Arr3) : Sel → Vec
   | .all => a.flat
@@ -237,7 +248,7 @@ structure Req where
   fields : List String
   input : Nat
   sel : Sel
-  deriving Repr, Inhabited
+  deriving Repr, Inhabited, DecidableEq
 
 def maskObsRange (r : Option (XR × XR)) (name : String) (a : Arr3) : Arr3 :=
   match r with
